@@ -189,6 +189,8 @@ static void case_c06(const drvargs_t *a,long id,const char *envpath){
   long N=(long)(c.rate*(0.9+0.5*rng_unit(&r))); if(N>64000)N=64000; if(c.channels>2 && N>40000)N=40000;
   c.nsamples=N; c.chunk=CHUNK_RANDOM;
   int managed = (id%6==5);
+  if(id%12==11){ /* dedicated stratum: bitrate-managed coupled stereo with content up to 0.4*rate (managed-only code paths in the stereo set-up) */
+    managed=1; c.channels=2; c.rate=(id%24==11)?44100:48000; c.sig= (id%36==11)?SIG_MULTI:SIG_WIDE; N=(long)(c.rate*(0.9+0.5*rng_unit(&r))); if(N>64000)N=64000; c.nsamples=N; }
   int nq= managed?1:3; int qi[3]; qi[0]=(int)rng_below(&r,2); qi[1]=2+(int)rng_below(&r,2); qi[2]=4+(int)rng_below(&r,2);
   double snr_prev=-1e9; int qprev=-1;
   /* original */
